@@ -1,5 +1,5 @@
 (* C17 -- topology and propagation delays are reconstructed correctly from port timestamps. *)
-From EC Require Import Base.Prelude Base.Bytes Dc.Topo Dc.TopoProofs Dc.Chain Dc.Tree Dc.TreeProofs Dc.TreeRefine.
+From EC Require Import Base.Prelude Base.Bytes Dc.Topo Dc.TopoProofs Dc.Chain Dc.Tree Dc.TreeProofs Dc.TreeRefine Dc.TreeSuccess.
 Local Open Scope N_scope.
 
 (* For ANY port reports of ANY number of devices (open/closed flags and 32-bit port times chosen
@@ -71,6 +71,16 @@ Theorem c17_tree_parents : forall md t l out,
   map d_parent out = tpar 0 None t.
 Proof. exact tree_parents_assigned. Qed.
 Print Assumptions c17_tree_parents.
+
+(* ... and it does succeed: EVERY tree, reported in ring order with children + 1 open ports per
+   device and 32-bit port times - whatever those times, the DC capabilities and the build mode -
+   is assigned without error, and every device gets its true upstream neighbour. *)
+Theorem c17_tree_assignment : forall md t l,
+  map (fun x => nact (fst (fst x))) l = map (fun p => S (snd p)) (ipre 0 t) ->
+  (forall a tm dc, In (a, tm, dc) l -> Forall (fun x => x < 4294967296) tm) ->
+  exists out, assign md (mk_devs 0 l) = Ok out /\ map d_parent out = tpar 0 None t.
+Proof. exact tree_assignment. Qed.
+Print Assumptions c17_tree_assignment.
 
 (* not vacuous: a coupler with a line of two on one port and a fork on the next *)
 Theorem c17_tree_example :
